@@ -110,7 +110,7 @@ def split_by_construction(seq, st, prefix_lines, replace):
 
 
 def bounds(tier, seed):
-    return {"tokens": list(TOKENS), "max_len": {"python,c": 3 if tier == "quick" else 5, "other styles": 2 if tier == "quick" else 3},
+    return {"tokens": list(TOKENS), "max_len": {"python,c": 3 if tier == "quick" else 4, "other styles": 2 if tier == "quick" else 3},
             "styles": list(all_styles(tier)), "prefixes": ["none", "BOM", "shebang (styles that define one)", "BOM+shebang"],
             "line_endings": ["LF", "CRLF", "CR"], "final_newline": [True, False], "modes": ["replace", "--no-replace"],
             "seed_slice": "sequences of the next length starting with TOKENS[seed % 9] for python" if tier == "quick" else None}
@@ -123,7 +123,7 @@ def seqs(n):
 
 
 def cases(tier, seed):
-    deep = 3 if tier == "quick" else 5
+    deep = 3 if tier == "quick" else 4
     shallow = 2 if tier == "quick" else 3
     for name in all_styles(tier):
         n = deep if name in ("python", "c") else shallow
